@@ -1,8 +1,11 @@
 package chain
 
 import (
+	"encoding/base64"
 	"fmt"
 	"strings"
+
+	didkeeper "github.com/SaoNetwork/sao/x/did/keeper"
 
 	didtypes "github.com/SaoNetwork/sao/x/did/types"
 	nodetypes "github.com/SaoNetwork/sao/x/node/types"
@@ -78,6 +81,9 @@ func (e *Event) Normalize() {
 	}
 	if e.SigMode == "" {
 		e.SigMode = "ok"
+	}
+	if e.SigMode == "kidspoof" && e.Signer == e.Owner {
+		e.SigMode = "ok" // the owner's kid on the owner's own signature is simply a valid signature
 	}
 	e.Cseg = strings.Split(e.Commit, "|")
 }
@@ -241,6 +247,12 @@ func (c *Chain) Msg(e *Event) sdk.Msg {
 			return &saotypes.MsgReportFaults{Creator: c.addr(e.Creator), Provider: c.addr(e.Provider), Faults: fs}
 		}
 		return &saotypes.MsgRecoverFaults{Creator: c.addr(e.Creator), Provider: c.addr(e.Provider), Faults: fs}
+	case "Binding":
+		return c.bindingMsg(e)
+	case "DidUpdate":
+		return c.didUpdateMsg(e)
+	case "PayAddrSid":
+		return &didtypes.MsgUpdatePaymentAddress{Creator: c.addr(e.Creator), AccountId: "cosmos:" + ChainID + ":" + c.addr(e.Acc), Did: c.Concrete(e.Did)}
 	case "Delegate":
 		return &stakingtypes.MsgDelegate{DelegatorAddress: c.addr(e.Creator), ValidatorAddress: c.Concrete(e.Val), Amount: sdk.NewInt64Coin(Denom, e.Amount)}
 	case "Undelegate":
@@ -331,4 +343,113 @@ func (c *Chain) Exec(e *Event) Outcome {
 		}
 	}
 	return out
+}
+
+// ---------------------------------------------------------------------------
+// sid DIDs. A symbolic sid name ("s1") stands for did:sid:<docId> where docId is the hash of
+// the key set and the creation timestamp; the mapping is created at first use.
+
+type sidInfo struct {
+	Name  string
+	Keys  []*didtypes.PubKey
+	T0    uint64
+	DocId string
+	Ver   int
+}
+
+func (c *Chain) sid(name string, ts uint64) *sidInfo {
+	if c.sids == nil {
+		c.sids = map[string]*sidInfo{}
+	}
+	if s, ok := c.sids[name]; ok {
+		return s
+	}
+	keys := []*didtypes.PubKey{{Name: "authentication", Value: "key-" + name}, {Name: "keyAgreement", Value: "agree-" + name}}
+	doc, _ := didkeeper.CalculateDocId(keys, ts)
+	s := &sidInfo{Name: name, Keys: keys, T0: ts, DocId: doc}
+	c.sids[name] = s
+	c.bind(name, "did:sid:"+doc)
+	c.names[doc] = name // the bare document id projects to the same symbolic name
+	return s
+}
+
+// blockTime is the header time of the current block (what the fixed code compares proofs with).
+func (c *Chain) blockTime() int64 { return 1700000000 + c.H*5 }
+
+// bindingMsg: e.Acc = account to bind (named cosmos account, or "eth:<k>"), e.Did = symbolic sid,
+// e.Amount = proof timestamp relative to the block time (seconds; 0 = now), e.SigMode:
+// ok | wrongkey (proof signed by another account's key) | none; e.Status = 1 means "absolute
+// timestamp in e.N" (used by the wall-clock experiment).
+func (c *Chain) bindingMsg(e *Event) sdk.Msg {
+	ts := uint64(c.blockTime() + e.Amount)
+	if e.Status == 1 {
+		ts = uint64(e.N)
+	}
+	s := c.sid(e.Did, ts)
+	if _, exists := c.App.DidKeeper.GetSidDocumentVersion(c.Ctx, s.DocId); !exists && s.T0 != ts {
+		// the DID does not exist yet: its id is derived from this (first) proof's timestamp
+		delete(c.sids, e.Did)
+		s = c.sid(e.Did, ts)
+	}
+	accName := e.Acc
+	target := c.Acc(accName)
+	accountId := "cosmos:" + ChainID + ":" + c.addr(accName)
+	message := fmt.Sprintf("Link this account to your did: %s\nTimestamp: %d", "did:sid:"+s.DocId, ts)
+	if e.SigMode == "replay" {
+		// a message the account really signed, but about another did / another time
+		message = fmt.Sprintf("Link this account to your did: %s\nTimestamp: %d", "did:sid:0000other", ts-100000)
+	}
+	sig := ""
+	if target != nil && e.SigMode != "none" {
+		signer := target
+		if e.SigMode == "wrongkey" {
+			signer = c.Acc(e.Creator)
+			if signer == nil || signer == target {
+				signer = c.Accs[0]
+			}
+		}
+		bz, _ := signer.Priv.Sign(didkeeper.GetSignData(target.Addr.String(), message))
+		pk := target.Priv.PubKey().Bytes()
+		if e.SigMode == "wrongkey" {
+			pk = signer.Priv.PubKey().Bytes()
+		}
+		sig = "tendermint/PubKeySecp256k1." + base64.StdEncoding.EncodeToString(pk) + "." + base64.StdEncoding.EncodeToString(bz)
+	} else {
+		sig = "tendermint/PubKeySecp256k1.AAAA.AAAA"
+	}
+	accDid := "did:key:acc-" + accName + "-" + e.Did
+	c.bind("ad_"+accName+"_"+e.Did, accDid)
+	return &didtypes.MsgBinding{
+		Creator: c.addr(e.Creator), AccountId: accountId, RootDocId: s.DocId, Keys: s.Keys,
+		AccountAuth: &didtypes.AccountAuth{AccountDid: accDid, AccountEncryptedSeed: "seed", SidEncryptedAccount: "enc"},
+		Proof:       &didtypes.BindingProof{Version: 1, Message: message, Signature: sig, Account: accountId, Did: "did:sid:" + s.DocId, Timestamp: ts},
+	}
+}
+
+// didUpdateMsg: key rotation of sid e.Did by e.Creator: accounts in e.Tx are removed, accounts in
+// e.Datas are kept (updated); e.Amount = timestamp offset; e.Commit = past seed.
+func (c *Chain) didUpdateMsg(e *Event) sdk.Msg {
+	s := c.sid(e.Did, uint64(c.blockTime()))
+	ts := uint64(c.blockTime() + e.Amount)
+	s.Ver = 1
+	if v, ok := c.App.DidKeeper.GetSidDocumentVersion(c.Ctx, s.DocId); ok {
+		s.Ver = len(v.VersionList)
+	}
+	keys := []*didtypes.PubKey{{Name: "authentication", Value: fmt.Sprintf("key-%s-v%d-%d", e.Did, s.Ver, ts)}}
+	doc, _ := didkeeper.CalculateDocId(keys, ts)
+	c.bind(fmt.Sprintf("%s_v%d", e.Did, s.Ver), doc)
+	var remove []string
+	for _, a := range e.Tx {
+		remove = append(remove, "did:key:acc-"+a+"-"+e.Did)
+	}
+	var upd []*didtypes.AccountAuth
+	for _, a := range e.Datas {
+		upd = append(upd, &didtypes.AccountAuth{AccountDid: "did:key:acc-" + a + "-" + e.Did, AccountEncryptedSeed: "seed2", SidEncryptedAccount: "enc2"})
+	}
+	seed := e.Commit
+	if seed == "" {
+		seed = fmt.Sprintf("seed-%s-%d", e.Did, s.Ver)
+	}
+	return &didtypes.MsgUpdate{Creator: c.addr(e.Creator), Did: "did:sid:" + s.DocId, NewDocId: doc, Keys: keys, Timestamp: ts,
+		UpdateAccountAuth: upd, RemoveAccountDid: remove, PastSeed: seed}
 }
